@@ -440,6 +440,11 @@ def run(ctx):
     bad_mm = [c for c in set(mm) if not any(c.startswith(a) for a in allowed_mm)]
     chk.ob("memory_mut-callers", not bad_mm, "direct mutable RAM access is used only by the program loaders",
            "", "other callers: %s" % bad_mm)
+    # the other way to overwrite all of RAM: Bus::reset_ram belongs to the program load (a reset is not a write: RAM survives it)
+    rr = sorted(b_ for b_, cs_ in cg.items() if (BUS + "::reset_ram") in cs_ and "::tests::" not in b_)
+    bad_rr = [c for c in rr if not any(c == a or c.startswith(a + "::{closure") for a in allowed_mm)]
+    chk.ob("reset_ram-callers", not bad_rr and bool(rr), "the RAM is cleared only by the program loaders, never by a reset",
+           p.need_type(BUS)["file"], "callers of Bus::reset_ram: %s" % rr, "who-may-call over the resolved call graph")
     # reads are pure by type: &self and no interior mutability
     chk.ob("read/receiver", rb.locals[1]["ty"].startswith("&L::") or rb.locals[1]["ty"].startswith("&'"),
            "Bus::read takes &self", rb.loc(), rb.locals[1]["ty"])
